@@ -7,6 +7,7 @@ DFT algebra and is NOT decided.  Decided (sign clauses, for a passive impedance 
      1-exp(-(f/fc)^2) in [0,1), Re Z[i], |F[i]|^2; the intensity is a sum of delta_f * spectrum
      with delta_f > 0, started from 0;
  R2  with a cutoff the extra factor lies in [0,1): the power is smaller and still non-negative;
+ R4  the spectrum stored for bunch n is computed from bunch n's own profile (row n of the X projection);
  R3  spectrum and wake use the same impedance sample for the same form-factor sample ([i] with [i]),
      and the impedance object used for the spectrum is the one handed to the field.
 """
@@ -142,5 +143,18 @@ def run(chk, prog):
         mn, mx = sc._try(rr["args"][1]), sc._try(rr["args"][2])
         ok = mn == 0 and mx is not None and sp.simplify(mx - 1 / d0) == 0
     chk.check(ok, "R1", A.loc(c8, {"line": af[0]["line"]}), "frequency axis runs from 0 to 1/delta0 > 0, so delta_f > 0", "ctor:_axis_freq")
+    # ---- R4: the spectrum of bunch n is computed from bunch n's own profile ---------------------------------
+    ev = m.flat("updateCSR")
+    cps = [e for e in ev if e.kind == "read-src"]
+    A.require(len(cps) == 1 and len(cps[0].loops) >= 1, "updateCSR: profile copy not found")
+    cp = cps[0]
+    row = E.profile_row(cp.value)
+    nsym = cp.loops[0].sym
+    wr = [e for e in ev if e.kind == "write" and e.nid == cp.nid]
+    ok = row is not None and sp.simplify(row - sp.Symbol(str(nsym), integer=True)) == 0 and wr and wr[0].buf == "_bp_padded" and wr[0].lo == 0 and \
+        sp.expand(wr[0].length - E.NX) == 0 and a.idx[0] == nsym
+    chk.check(ok, "R4", A.loc(fn, {"line": cp.line}),
+              "the profile transformed for spectrum[n] is row n of the X projection, N values placed at the start of the padded buffer (source %s -> row %s)" % (cp.value, row),
+              "updateCSR:profile-source:%s" % (cp.value,))
     chk.notes.append("C07: non-negativity of spectrum and intensity by a sign lattice over the extracted expressions (assuming Re Z >= 0), "
                      "cutoff factor in [0,1), index pairing. NOT decided: the Parseval equality with the wake-loss sum.")
